@@ -87,6 +87,15 @@ CHECKS = {
    design="4 C05",
    note=COMMON_NOTE + "Known finding F9 (hex-looking file names). Dependency by path relies on C03's round trip (F4 region excluded).",
    technique="Lean 4 proof (per reference form, parametric in fs and hash) + byte-exact correspondence + recomputation from files"),
+ "C03": dict(
+   text="Partial. Kernel-checked on the schema extracted from the running code: C03_full_fails (create, parse, create of the description with raw content h'0506' gives a "
+        "different envelope: finding F4) and C03_unambiguous_example (h'ff0506' round-trips); round-trip lemmas of the scalar kinds (C03_uint, C03_bstr, C03_uuid). The "
+        "whole-language round-trip theorem is not yet proved. The property is decided on every generated envelope: parse of the real tool vs the model (descriptions equal), "
+        "and the envelope re-created by the real tool from YAML and JSON files, with and without hierarchy expansion, compared span by span (keys 2, 3, 15-23, text-keyed "
+        "members) with the original; failures are accepted only inside the syntactic F4 region predicate.",
+   design="4 C03",
+   note=COMMON_NOTE + "Known finding F4 (region predicate ambiguous_positions); fixed finding F4c. No whole-language theorem yet: the deciding evidence is the correspondence.",
+   technique="Lean 4 (kernel-evaluated witnesses over the generated schema, scalar round-trip lemmas) + model/implementation correspondence on parse and on parse∘create"),
 }
 
 NA_REASON = "check not yet built in this revision (work in progress; DESIGN.md section 4 describes the planned model and theorems)"
